@@ -16,7 +16,7 @@
 //! monomorphisation, so a type losing Send/Sync fails the build with an E0277
 //! diagnostic naming it (the driver turns that into a violation).
 //!
-//! Usage: c20 --threads N --iters M [--only a,b,c] [--list] [--samples]
+//! Usage: c20 --threads N --iters M [--only a,b,c [--exact]] [--lite] [--list] [--samples]
 //! (counts come from argv, never from the environment; no clock, no env, no FFI).
 
 mod table;
@@ -110,9 +110,9 @@ pub struct Exercised {
     pub eq_failed: Option<&'static str>,
 }
 
-pub type Exercise<T> = fn(&T, fn(&T) -> String) -> Exercised;
+pub type Exercise<T> = fn(&T, Option<fn(&T) -> String>) -> Exercised;
 
-pub fn ex_clone_eq<T: Clone + PartialEq>(t: &T, render: fn(&T) -> String) -> Exercised {
+pub fn ex_clone_eq<T: Clone + PartialEq>(t: &T, render: Option<fn(&T) -> String>) -> Exercised {
     let c = t.clone();
     let c2 = c.clone();
     let mut eq_failed = None;
@@ -127,21 +127,21 @@ pub fn ex_clone_eq<T: Clone + PartialEq>(t: &T, render: fn(&T) -> String) -> Exe
         eq_failed = Some("!(clone != clone-of-clone)");
     }
     drop(c2);
-    let s = render(&c);
+    let s = render.map(|r| r(&c));
     drop(c);
-    Exercised { clone_render: Some(s), eq_failed }
+    Exercised { clone_render: s, eq_failed }
 }
 
-pub fn ex_clone<T: Clone>(t: &T, render: fn(&T) -> String) -> Exercised {
+pub fn ex_clone<T: Clone>(t: &T, render: Option<fn(&T) -> String>) -> Exercised {
     let c = t.clone();
     let c2 = c.clone();
     drop(c);
-    let s = render(&c2);
+    let s = render.map(|r| r(&c2));
     drop(c2);
-    Exercised { clone_render: Some(s), eq_failed: None }
+    Exercised { clone_render: s, eq_failed: None }
 }
 
-pub fn ex_none<T>(_t: &T, _render: fn(&T) -> String) -> Exercised {
+pub fn ex_none<T>(_t: &T, _render: Option<fn(&T) -> String>) -> Exercised {
     Exercised { clone_render: None, eq_failed: None }
 }
 
@@ -153,6 +153,10 @@ pub struct Rig {
     pub threads: usize,
     pub iters: usize,
     pub only: Option<Vec<String>>,
+    /// `--exact`: `--only` names select exactly the row of that name (not `Name/...` too)
+    pub exact: bool,
+    /// `--lite`: small instances, no Debug rendering, clones are not re-rendered (Miri)
+    pub lite: bool,
     pub list: bool,
     pub samples: bool,
     pub types: usize,
@@ -176,7 +180,7 @@ impl Rig {
             None => true,
             Some(v) => {
                 let base = name.split('/').next().unwrap_or(name);
-                v.iter().any(|w| w == name || w == base)
+                v.iter().any(|w| w == name || (!self.exact && w == base))
             }
         }
     }
@@ -199,7 +203,14 @@ impl Rig {
         self.seen.push(name);
         let threads = self.threads;
         let iters = self.iters;
-        let full = move |t: &T| -> String { format!("{}\n-- debug --\n{:?}", render(t), t) };
+        let lite = self.lite;
+        let full = move |t: &T| -> String {
+            if lite {
+                format!("{}\n-- debug --\n", render(t))
+            } else {
+                format!("{}\n-- debug --\n{:?}", render(t), t)
+            }
+        };
 
         // thread A: build + reference rendering, then move the value away
         let (tx, rx) = mpsc::channel::<(T, String, String, ThreadId)>();
@@ -208,7 +219,7 @@ impl Rig {
             .spawn(move || {
                 let v = make();
                 let sql = render(&v);
-                let expect = format!("{}\n-- debug --\n{:?}", sql, v);
+                let expect = if lite { format!("{}\n-- debug --\n", sql) } else { format!("{}\n-- debug --\n{:?}", sql, v) };
                 tx.send((v, expect, sql, thread::current().id())).expect("send to B");
             })
             .expect("spawn A");
@@ -245,7 +256,7 @@ impl Rig {
                                         bad.push(format!("thread={w} iter={it} kind=render got={} want={}", clip(&got), clip(&expect)));
                                     }
                                     // clone / compare / render the clone / drop it, all on this thread
-                                    let ex = exercise(t, render);
+                                    let ex = exercise(t, if lite { None } else { Some(render) });
                                     if let Some(cr) = ex.clone_render {
                                         // the clone's SQL must equal the SQL half of the reference
                                         if expect.starts_with(cr.as_str()) && expect[cr.len()..].starts_with("\n-- debug --\n") {
@@ -325,6 +336,8 @@ fn main() {
         threads: 4,
         iters: 4,
         only: None,
+        exact: false,
+        lite: false,
         list: false,
         samples: false,
         types: 0,
@@ -350,6 +363,11 @@ fn main() {
                 rig.only = Some(args[i].split(',').map(|s| s.to_string()).collect());
             }
             "--list" => rig.list = true,
+            "--exact" => rig.exact = true,
+            "--lite" => {
+                rig.lite = true;
+                vals::LITE.store(true, Ordering::Relaxed);
+            }
             "--samples" => rig.samples = true,
             other => panic!("unknown argument {other}"),
         }
